@@ -270,7 +270,9 @@ def stepLine (s : WState) (line : String) (lineNo : Nat) : WState :=
           -- the translation `World.toCodec` against the slab parsed from the implementation's dump
           if kind == "SLB" && !line.startsWith "SLB MISSING" then
             let s := { s with rep := { (s.rep.tag "SLB:codec") with compared := s.rep.compared + 1 } }
-            match checkSLB s.codec s.aux (sdrop line 4) with
+            let (res, tags) := checkSLB s.codec s.aux (sdrop line 4)
+            let s := { s with rep := tags.foldl (fun r t => r.tag t) s.rep }
+            match res with
             | none => s
             | some msg => s.note s!"line {lineNo}: {msg}"
           else s
